@@ -86,7 +86,7 @@ def check(prog, res, tier):
 
     def chk_len(p, mode):
         if p.outcome != 'return':
-            return [definite(f'calculate_check_digit raises {p.value!r}')]
+            return [definite(f'calculate_check_digit raises {p.value!r}')] if p.outcome == 'raise' else []
         v = p.value
         if not (isinstance(v, SeqV) and v.kind == 'str'):
             return [definite(f'calculate_check_digit returns {v!r}, not a string')]
@@ -104,7 +104,7 @@ def check(prog, res, tier):
 
     def chk_add(p, mode):
         if p.outcome != 'return':
-            return [definite('add_check_digit raises')]
+            return [definite('add_check_digit raises')] if p.outcome == 'raise' else []
         v = p.value
         s = p.interp.user['s']
         src = s.segs[0].src
